@@ -324,7 +324,101 @@ def main():
     t.append('}')
     with open(os.path.join(out, 'shape_table.cpp'), 'w') as fh:
         fh.write('\n'.join(t) + '\n')
+    gen_wide(out)
     print('generated %d shapes in %d translation units' % (len(shapes), NTU))
+
+
+
+
+# ---------------------------------------------------------------------------------------------------------------
+# MockWide: one mock function per arity 0..15 whose parameter at position k cycles through the passing modes
+# (value, &, const&, &&, pointer, move-only), plus const and interface-implementing variants (C09).
+def gen_wide(out):
+    MODES = ['val', 'ref', 'cref', 'rref', 'ptr', 'uptr']
+    TYPES = {'val': 'int', 'ref': 'int&', 'cref': 'const int&', 'rref': 'int&&', 'ptr': 'int*', 'uptr': 'std::unique_ptr<sim::Tracked>'}
+
+    def modes_for(n, shift=0):
+        return [MODES[(k + n + shift) % 6] for k in range(1, n + 1)]
+
+    L = ['// generated by tools/gen_shapes.py -- do not edit', '#include "world.hpp"', '#include "wide.hpp"', 'namespace sim {']
+    L.append('struct IWide { virtual ~IWide() = default; virtual int iw3(int, int&, const int&) = 0; virtual int iw5(int*, int, int&, const int&, int&&) const = 0; };')
+    L.append('struct MockWide {')
+    for n in range(16):
+        L.append('  MAKE_MOCK%d(w%d, int(%s));' % (n, n, ', '.join(TYPES[m] for m in modes_for(n))))
+    for n in (2, 7, 12):
+        L.append('  MAKE_CONST_MOCK%d(cw%d, int(%s));' % (n, n, ', '.join(TYPES[m] for m in modes_for(n, 3))))
+    L.append('};')
+    L.append('struct MockIWide : trompeloeil::mock_interface<IWide> {')
+    L.append('  IMPLEMENT_MOCK3(iw3);')
+    L.append('  IMPLEMENT_CONST_MOCK5(iw5);')
+    L.append('};')
+
+    cases = []
+
+    def emit_case(cid, mock_t, fname, modes, const_call=False):
+        n = len(modes)
+        body = []
+        body.append('static void wide_case_%d(WideRun& R, int base) {' % cid)
+        body.append('  %s m; R.n = %d; R.name = "%s"; WideRun* rp = &R;' % (mock_t, n, fname))
+        decl = []; callargs = []
+        for k, md in enumerate(modes, 1):
+            v = 'base + %d' % (k * 7)
+            if md == 'val':
+                decl.append('  int a%d = %s; R.mode[%d] = WM_VAL; R.want_val[%d] = a%d; R.want_addr[%d] = nullptr;' % (k, v, k, k, k, k)); callargs.append('a%d' % k)
+            elif md in ('ref', 'cref'):
+                decl.append('  int a%d = %s; R.mode[%d] = %s; R.want_val[%d] = a%d; R.want_addr[%d] = &a%d;' % (k, v, k, 'WM_REF' if md == 'ref' else 'WM_CREF', k, k, k, k)); callargs.append('a%d' % k)
+            elif md == 'rref':
+                decl.append('  int a%d = %s; R.mode[%d] = WM_RREF; R.want_val[%d] = a%d; R.want_addr[%d] = &a%d;' % (k, v, k, k, k, k, k)); callargs.append('std::move(a%d)' % k)
+            elif md == 'ptr':
+                decl.append('  int a%d = %s; R.mode[%d] = WM_PTR; R.want_val[%d] = a%d; R.want_addr[%d] = &a%d;' % (k, v, k, k, k, k, k)); callargs.append('&a%d' % k)
+            else:
+                decl.append('  std::unique_ptr<Tracked> a%d(new Tracked(%s)); R.mode[%d] = WM_UPTR; R.want_val[%d] = a%d->v; R.want_addr[%d] = a%d.get();' % (k, v, k, k, k, k, k)); callargs.append('std::move(a%d)' % k)
+        body += decl
+        wps = ', '.join('sim::wp(_%d)' % k for k in range(1, n + 1))
+        wild = ', '.join(['trompeloeil::_'] * n)
+        stmt = 'auto e = NAMED_REQUIRE_CALL(m, %s(%s))' % (fname, wild)
+        stmt += '.WITH(sim::wide_log(rp, 0%s))' % (', ' + wps if n else '')
+        stmt += '.SIDE_EFFECT(sim::wide_log(rp, 1%s))' % (', ' + wps if n else '')
+        for k, md in enumerate(modes, 1):
+            if md == 'ref':
+                stmt += '.SIDE_EFFECT(_%d = 1000 + %d)' % (k, k)
+            elif md == 'ptr':
+                stmt += '.SIDE_EFFECT(*_%d = 1000 + %d)' % (k, k)
+        stmt += '.RETURN(sim::wide_ret(rp, 2%s));' % (', ' + wps if n else '')
+        body.append('  long c0 = Tracked::copies;')
+        body.append('  ' + stmt)
+        if const_call:
+            body.append('  const %s& cm = m; R.returned = cm.%s(%s);' % (mock_t, fname, ', '.join(callargs)))
+        else:
+            body.append('  R.returned = m.%s(%s);' % (fname, ', '.join(callargs)))
+        for k, md in enumerate(modes, 1):
+            if md in ('ref', 'ptr'):
+                body.append('  R.after[%d] = a%d;' % (k, k))
+        body.append('  R.copies = Tracked::copies - c0;')
+        body.append('  R.satisfied = e->is_satisfied();')
+        body.append('}')
+        cases.append((cid, n))
+        return body
+
+    cid = 0
+    for n in range(16):
+        L += emit_case(cid, 'MockWide', 'w%d' % n, modes_for(n)); cid += 1
+    for n in (2, 7, 12):
+        L += emit_case(cid, 'MockWide', 'cw%d' % n, modes_for(n, 3), const_call=True); cid += 1
+    L += emit_case(cid, 'MockIWide', 'iw3', ['val', 'ref', 'cref']); cid += 1
+    L += emit_case(cid, 'MockIWide', 'iw5', ['ptr', 'val', 'ref', 'cref', 'rref'], const_call=True); cid += 1
+    L.append('const int wide_case_count = %d;' % cid)
+    L.append('void wide_run(int c, WideRun& R, int base) {')
+    L.append('  switch (c) {')
+    for c, n in cases:
+        L.append('    case %d: wide_case_%d(R, base); break;' % (c, c))
+    L.append('    default: break;')
+    L.append('  }')
+    L.append('}')
+    L.append('}')
+    with open(os.path.join(out, 'wide.cpp'), 'w') as fh:
+        fh.write('\n'.join(L) + '\n')
+
 
 
 if __name__ == '__main__':
